@@ -55,3 +55,16 @@ func extensionsFromExprWithPrefix(mdata expr.MetaExpr, prefix string) map[string
 	}
 	return extensions
 }
+
+// SummaryFromExpr returns the operation summary set in the given metadata with
+// the "openapi:summary" key or, when that key is absent, with the legacy
+// "swagger:summary" key. The result does not depend on map iteration order
+// when both keys are present.
+func SummaryFromExpr(mdata expr.MetaExpr) (string, bool) {
+	for _, key := range []string{"openapi:summary", "swagger:summary"} {
+		if vals := mdata[key]; len(vals) > 0 {
+			return vals[0], true
+		}
+	}
+	return "", false
+}
